@@ -289,6 +289,14 @@ def run(chk, ctx):
                 conds[0].args[0].op == 'gt' and \
                 conds[0].args[0].args[1] == 0xFFFFFFFF and \
                 conds[0].args[0].args[0] in dp.reads
+            if okc:
+                # milliseconds are scaled by true division (the fraction of
+                # a second is part of the instant); seconds pass unchanged
+                g_, ms_, sec_ = conds[0].args
+                okc = isinstance(ms_, Sym) and ms_.op == 'div' and \
+                    ms_.args[0] is g_.args[0] and ms_.args[1] in (1000,
+                                                                  1000.0) \
+                    and sec_ is g_.args[0]
             calls = [t for t in T.subterms(v) if t.op == 'extcall']
             okf = len(calls) >= 1 and \
                 calls[0].args[0] == 'datetime.datetime.fromtimestamp'
